@@ -6,6 +6,7 @@ import (
 	"net/netip"
 	"reflect"
 	"testing"
+	"time"
 
 	"github.com/osrg/gobgp/v4/pkg/packet/bgp"
 )
@@ -30,8 +31,10 @@ type c14Sched struct {
 	A2   []c14Desc `json:"a2"`
 	Has4 bool      `json:"has4"`
 	A4   []c14Desc `json:"a4"`
-	G2   string    `json:"g2"` // pair: none narrow trans
-	G4   string    `json:"g4"` // pair: none wide
+	G2   string    `json:"g2"`  // pair: none narrow trans
+	G4   string    `json:"g4"`  // pair: none wide
+	K    int       `json:"k"`   // grp: messages sharing one attribute list
+	Via  string    `json:"via"` // grp: slice | packer
 }
 
 type c14Seg struct {
@@ -227,6 +230,48 @@ func c14Recover(f func()) (msg string) {
 	return ""
 }
 
+// c14DownUp does to one UPDATE what sendMessageloop's send() does for a 2-octet peer, puts it on
+// the wire, parses it as received from a 2-octet peer and reconstructs (recvMessageloop).
+func c14DownUp(tr *vpTrace, u *bgp.BGPUpdate, p []c14Seg, g c14Agg, i int) {
+	pre := c14Observe(u)
+	pre.Via = "wire"
+	var down c14View
+	var got *bgp.BGPUpdate
+	perr := c14Recover(func() {
+		UpdatePathAttrs2ByteAs(u)
+		UpdatePathAggregator2ByteAs(u)
+	})
+	if perr == "" {
+		var werr string
+		var n int
+		perr = c14Recover(func() { got, n, werr = c14Wire(u) })
+		if got != nil {
+			down = c14Observe(got)
+			down.Via = "wire"
+		} else {
+			down = c14Observe(u)
+			down.Via = "direct"
+			down.Err = werr
+			got = u
+		}
+		down.WireLen = n
+	} else {
+		down = c14Observe(u)
+		down.Via = "direct"
+		got = u
+	}
+	if perr != "" {
+		down.Err = perr
+	}
+	tr.Emit(map[string]any{"ev": "Down", "i": i, "p": p, "agg": g, "pre": pre, "obs": down})
+	var uerr string
+	e := c14Recover(func() { uerr = c14Up(got) })
+	up := c14Observe(got)
+	up.Via = down.Via
+	up.Err = uerr + e
+	tr.Emit(map[string]any{"ev": "Up", "as2": down.AsPath, "as4": down.As4, "g2": down.Agg, "g4": down.Agg4, "obs": up})
+}
+
 func TestVerifC14(t *testing.T) {
 	tr := vpOpenTrace(t)
 	defer tr.Close()
@@ -240,7 +285,7 @@ func TestVerifC14(t *testing.T) {
 		tid++
 		tr.Emit(map[string]any{"ev": "Reset", "tid": tid, "kind": s.Kind})
 		switch s.Kind {
-		case "rt":
+		case "rt", "grp":
 			as := c14Concrete(s.P, 0, false)
 			params := make([]bgp.AsPathParamInterface, 0, len(as))
 			for i, d := range s.P {
@@ -255,44 +300,39 @@ func TestVerifC14(t *testing.T) {
 				attrs = append(attrs, a)
 				g = c14Agg{P: true, AS: c14Num(asn), Ad: ad}
 			}
-			// --- send side (sendMessageloop.send)
-			u := bgp.NewBGPUpdateMessage(nil, attrs, nlri).Body.(*bgp.BGPUpdate)
-			var down c14View
-			var got *bgp.BGPUpdate
-			perr := c14Recover(func() {
-				UpdatePathAttrs2ByteAs(u)
-				UpdatePathAggregator2ByteAs(u)
-			})
-			if perr == "" {
-				var werr string
-				var n int
-				perr = c14Recover(func() { got, n, werr = c14Wire(u) })
-				if got != nil {
-					down = c14Observe(got)
-					down.Via = "wire"
-				} else {
-					down = c14Observe(u)
-					down.Via = "direct"
-					down.Err = werr
-					got = u
+			if s.Kind == "rt" {
+				u := bgp.NewBGPUpdateMessage(nil, attrs, nlri).Body.(*bgp.BGPUpdate)
+				c14DownUp(tr, u, c14SegsOf(s.P, as), g, 1)
+				break
+			}
+			// --- "grp": the messages of one attribute group share the attribute list; all of them
+			// exist before the first one is converted (as in sendMessageloop)
+			var msgs []*bgp.BGPUpdate
+			shared := attrs
+			if s.Via == "packer" {
+				// more NLRIs with identical attributes than one UPDATE holds: the packer cuts
+				// several UPDATEs from one group and hands all of them the same list
+				src := &PeerInfo{AS: 65001, LocalAS: vpLocalAS, ID: netip.MustParseAddr("10.0.0.1"), Address: netip.MustParseAddr("10.0.0.1")}
+				paths := make([]*Path, 0, 1700)
+				for i := 0; i < 1700; i++ {
+					pfx := fmt.Sprintf("10.%d.%d.%d/32", 100+i>>16, i>>8&0xff, i&0xff)
+					paths = append(paths, NewPath(bgp.RF_IPv4_UC, src, bgp.PathNLRI{NLRI: vpPrefix(pfx)}, false, attrs, time.Unix(1000, 0), false))
 				}
-				down.WireLen = n
+				for _, m := range CreateUpdateMsgFromPaths(paths) {
+					msgs = append(msgs, m.Body.(*bgp.BGPUpdate))
+				}
+				shared = paths[0].GetPathAttrs()
 			} else {
-				down = c14Observe(u)
-				down.Via = "direct"
-				got = u
+				for i := 0; i < s.K; i++ {
+					n2 := []bgp.PathNLRI{{NLRI: vpPrefix(fmt.Sprintf("10.14.%d.0/24", i))}}
+					msgs = append(msgs, bgp.NewBGPUpdateMessage(nil, attrs, n2).Body.(*bgp.BGPUpdate))
+				}
 			}
-			if perr != "" {
-				down.Err = perr
+			for i, m := range msgs {
+				c14DownUp(tr, m, c14SegsOf(s.P, as), g, i+1)
 			}
-			tr.Emit(map[string]any{"ev": "Down", "p": c14SegsOf(s.P, as), "agg": g, "obs": down})
-			// --- receive side (recvMessageloop)
-			var uerr string
-			e := c14Recover(func() { uerr = c14Up(got) })
-			up := c14Observe(got)
-			up.Via = down.Via
-			up.Err = uerr + e
-			tr.Emit(map[string]any{"ev": "Up", "as2": down.AsPath, "as4": down.As4, "g2": down.Agg, "g4": down.Agg4, "obs": up})
+			tr.Emit(map[string]any{"ev": "Shared", "via": s.Via, "msgs": len(msgs),
+				"obs": c14Observe(&bgp.BGPUpdate{PathAttributes: shared})})
 		case "pair":
 			as2 := c14Concrete(s.A2, 0, true)
 			params := make([]bgp.AsPathParamInterface, 0, len(as2))
